@@ -42,6 +42,11 @@ SINGLE = [f"one-{d}-{s}" for d in _DT for s in _SZ]
 OTHER = ["mix", "deser", "lazy", "big-align", "unnamed", "shared", "subgraph", "init-input", "str-small", "str-big",
          "ext-other", "ext-otherdir", "ext-other-small", "ext-other-touched",
          "ext-dest", "ext-dest-small", "ext-dest-touched",
+         # a model exported earlier into ANOTHER directory under the same file name and loaded back: every large
+         # initializer is external to `<other dir>/<model file name>.data`, the rest is small (seeded C20h: a shortcut
+         # compared only the file NAME of the external location); `reloaded` = built by hand, `resaved` = really
+         # written by the API into a staging directory and read back with ir.load
+         "reloaded-samename-otherdir", "resaved-otherdir",
          "uninit", "uninit-mix", "uninit-sub",
          # subgraph shapes: zero-node branches that return their own initializer, the uninitialized one in the else branch,
          # two levels deep (If inside an If branch)
@@ -132,6 +137,22 @@ def _layout(root, dest, pathkind):
 
 def build(mid, root, full_model_path):
     """History models '<base>-after-<op>' are built as their fully initialized base, taken through <op>, then edited."""
+    if mid == "resaved-otherdir":
+        # history: the API itself exports `mix` into a staging directory under the destination's file name; that export is
+        # read back with ir.load (large initializers are now ExternalTensors of staging/<name>.data, the others small)
+        # and is the model that gets saved
+        from onnxscript import ir
+        from onnxscript._framework_apis import torch_2_5 as api
+        b0 = _build("mix", root, full_model_path)
+        stag = os.path.join(root, "staging")
+        os.makedirs(stag, exist_ok=True)
+        spath = os.path.join(stag, os.path.basename(full_model_path))
+        api.save_model_with_external_data(b0.model, spath)
+        raws = {name: raw for (_l, name, _v, raw) in b0.tracked}
+        b = Built()
+        b.model = ir.load(spath)
+        b.tracked = [("main", name, v, raws[name]) for name, v in b.model.graph.initializers.items()]
+        return b
     for suffix, op in (("-after-check", "check"), ("-after-save", "save")):
         if mid.endswith(suffix):
             stem = mid[: -len(suffix)]
@@ -302,6 +323,10 @@ def _build(mid, root, full_model_path):
                   mem("a", "i64", "1K", 2)]
     elif mid == "ext-otherdir":
         inits += [ext("e", "f16", "64K", os.path.join(root, "other", "old.bin"), 0, 1), mem("a", "i64", "1K", 2)]
+    elif mid == "reloaded-samename-otherdir":
+        stag = os.path.join(root, "staging", os.path.basename(data_file))
+        inits += [ext("e", "f32", "1K", stag, 0, 1), ext("e2", "i64", "1K", stag, 1024, 3), mem("a", "i64", "8B", 2),
+                  mem("s", "f32", "scalar", 5)]
     elif mid == "ext-other-small":
         inits += [ext("e", "i64", "8B", os.path.join(out, "old.bin"), 8, 1), mem("a", "i64", "1K", 2)]
     elif mid in ("ext-dest", "ext-dest-touched"):
